@@ -7,6 +7,9 @@
  *       build the MSA through the public API, write it (esl_msafile_Write dispatch, or via=direct the format's own
  *       esl_msafile_<fmt>_Write; nw/rpl = ESL_MSAFILE_FMTDATA of the PHYLIP writers), read it back (declared + autodetected), re-write.
  *
+ *   reformat fmt=<f> abc=<text|amino|dna|rna> hex=<bytes>
+ *       read the first alignment of the bytes, write it in the same format, read that back, compare (esl-reformat's path).
+ *
  * dump syntax (blank-free), see dump_msa(): {n=..;alen=..;dig=..;hasw=..;nm=h,h;sq=h,h;...optional fields only when present}
  *   h = '~' NULL, '-' empty string, lowercase hex otherwise
  */
@@ -490,6 +493,44 @@ static void op_rt(void)
   free(b1); free(b2); free(d2); free(d3);
 }
 
+/* reformat fmt=<f> abc=<text|amino|dna|rna> hex=<bytes>: what `esl-reformat <f>` does to a file of the same format - read the first alignment,
+ * write it in the same format, read the written bytes back, compare the two alignments field by field (dump strings) */
+static void op_reformat(void)
+{
+  const char *as = h_arg("abc"); int fmt = fmt_code(h_arg("fmt")), status, wst;
+  int64_t n; unsigned char *b = h_unhex(h_arg("hex") ? h_arg("hex") : "-", &n);
+  ESL_ALPHABET *abc = NULL, **byp = NULL; ESL_MSAFILE *afp = NULL; ESL_MSA *m = NULL, *m2 = NULL;
+  unsigned char *b1 = NULL; int64_t n1 = 0; char *d1 = NULL, *d2 = NULL;
+  sb_reset();
+  if (!as) as = "text";
+  if (strcmp(as, "text")) { abc = esl_alphabet_Create(abc_type(as)); byp = &abc; }
+  g_direct = 0; g_wfd = NULL;
+  status = open_source(byp, b, n, fmt, "mem", 0, NULL, &afp);
+  sb_printf("open=%s", h_status(status)); note_exception();
+  if (status != eslOK) goto DONE;
+  status = esl_msafile_Read(afp, &m);
+  sb_printf(" rd=%s", h_status(status)); if (status == eslEFORMAT) sb_puts(afp->errmsg[0] ? ":msg" : ":nomsg"); note_exception();
+  if (status != eslOK || !m) goto DONE;
+  report_msa(m);
+  d1 = dump_to_str(m);
+  b1 = write_msa(m, fmt, &n1, &wst);
+  sb_printf(" wr=%s", h_status(wst)); note_exception();
+  if (wst != eslOK) goto DONE;
+  close_source(afp); afp = NULL;
+  status = esl_msafile_OpenMem(byp, (char *) b1, n1, fmt, NULL, &afp);
+  sb_printf(" open2=%s", h_status(status)); note_exception();
+  if (status != eslOK) goto DONE;
+  status = esl_msafile_Read(afp, &m2);
+  sb_printf(" rd2=%s", h_status(status)); if (status == eslEFORMAT) sb_puts(afp->errmsg[0] ? ":msg" : ":nomsg"); note_exception();
+  if (status == eslOK && m2) { d2 = dump_to_str(m2); sb_printf(" same=%s", strcmp(d1, d2) == 0 ? "yes" : "no"); }
+ DONE:
+  if (afp && g_exact) close_source(afp); else if (afp) esl_msafile_Close(afp);
+  free(g_exact); g_exact = NULL;
+  if (m) esl_msa_Destroy(m); if (m2) esl_msa_Destroy(m2);
+  if (abc) esl_alphabet_Destroy(abc);
+  free(b); free(b1); free(d1); free(d2);
+}
+
 /* printf("%.2f") of a double / printf("%.1f") of a float given by their bit patterns (differential test of fmtF2/fmtF1) */
 static void op_fmt(void)
 {
@@ -540,6 +581,7 @@ static void h_op(void)
   if      (!strcmp(op, "parse")) op_parse();
   else if (!strcmp(op, "rt"))    op_rt();
   else if (!strcmp(op, "fmt"))   op_fmt();
+  else if (!strcmp(op, "reformat")) op_reformat();
   else { h_out("bad-op"); return; }
   scrub_stack();
   if (leak_check() > 0) sb_puts(" leak");
